@@ -165,6 +165,7 @@ def run(ctx: Ctx) -> Result:
     # their execution timeout, then they are deliverable again (RedisBroker.maintenance; sequential histories)
     from . import _redis
     _redis.run_seq(ctx, res, "c03r", {"C01"}, "death", 120, 2500, ctx.rng("death"))
+    _redis.finish_cuts(ctx, res)
     seen, uniq = set(), []
     for f in res.failures:
         if f.kind not in seen:
